@@ -59,15 +59,17 @@ Definition step (r : N) (st : wstate) : wstate :=
       (N.eqb r CR).
 
 (* walkString s f, with the callback's captured variable threaded as [acc]:
-   f i p acc = (acc', continue?) *)
+   f i p acc = (acc', continue?).  The \n of a \r\n pair is not visited. *)
 Fixpoint walk {A} (its : list item) (i : nat) (st : wstate)
          (f : nat -> pos -> A -> A * bool) (acc : A) : A :=
   match its with
   | [] => fst (f i (w_pos st) acc)            (* the final f(len(s), p) *)
   | it :: rest =>
-    let r := f i (w_pos st) acc in
-    if snd r then walk rest (i + snd it) (step (fst it) st) f (fst r)
-    else fst r
+    if w_cr st && N.eqb (fst it) LF then walk rest (i + snd it) (step (fst it) st) f acc
+    else
+      let r := f i (w_pos st) acc in
+      if snd r then walk rest (i + snd it) (step (fst it) st) f (fst r)
+      else fst r
   end.
 
 Definition to_idx_items (its : list item) (target : pos) : nat :=
@@ -150,8 +152,10 @@ Definition check_from_idx (s : bytes) (idx : Z) (obs : pos) : bool :=
        then pos_eqb obs (pos_of_prefix (runes (fst ab))) else true)
     (splits (items_of s)).
 
-(* The input class of the recorded finding (DESIGN section 7 item 16): the
-   position is the exact position of a boundary right after a \r\n pair. *)
+(* The input class of the repaired finding (DESIGN section 7 item 16): the
+   position is the exact position of a boundary right after a \r\n pair.  The
+   harness emits one case of its own for each such position, so the grid case
+   leaves them to that case. *)
 Definition line_start_after_crlf (s : bytes) (p : pos) : bool :=
   existsb (fun ab => ends_crlf (runes (fst ab)) && pos_eqb (pos_of_prefix (runes (fst ab))) p)
           (splits (items_of s)).
@@ -298,25 +302,13 @@ Fixpoint corr_events (m : docs) (evs : list event) : bool :=
   end.
 
 (* ------------------------------------------------------------------ *)
-(* Unawaited updates.  updateDocument publishes from a fresh goroutine per update
-   ("go func() { ... conn.Notify(...) }()"), so when several updates of a document
-   are handled back to back their publications may reach the client in any
-   order.  The model allows every permutation. *)
-Fixpoint inserts {A} (x : A) (l : list A) : list (list A) :=
-  (x :: l) :: match l with
-              | [] => []
-              | y :: r => map (cons y) (inserts x r)
-              end.
-Fixpoint perms {A} (l : list A) : list (list A) :=
-  match l with
-  | [] => [[]]
-  | x :: r => flat_map (inserts x) (perms r)
-  end.
-
+(* Unawaited updates.  updateDocument publishes synchronously, inside the handler,
+   and handlers run one at a time: the publications of updates that are handled
+   back to back reach the client in the order of the updates. *)
 Definition burst_pubs_in_order (u : uri) (ups : list (bytes * list (Z * Z))) : list (uri * list lrange) :=
   map (fun tp => (u, diags_of (fst tp) (snd tp))) ups.
 Definition burst_orders (u : uri) (ups : list (bytes * list (Z * Z))) : list (list (uri * list lrange)) :=
-  perms (burst_pubs_in_order u ups).
+  [burst_pubs_in_order u ups].
 
 (* The property on a burst: what the client is left with — the last publication
    for the document — has the ranges of the document's (latest) parse errors. *)
